@@ -417,7 +417,7 @@ def replay(case):
 
 def main(tier, seed, t0):
     quick = tier == "quick"
-    n = 40 if quick else 600
+    n = 100 if quick else 1500
     col = core.run_shards(worker, [(seed * 1000 + 600 + k, n) for k in range(16)])
     need = ["kind:valid", "kind:unknown-tag", "kind:surplus-string", "kind:tag-after-positional", "kind:ill-typed-positional",
             "kind:ill-typed-parameter", "kind:value-outside-set", "kind:parameter-after-tag-not-valid_for",
